@@ -398,6 +398,9 @@ func c04Check(c *Ctx, cs c04Case) *Failure {
 	if cs.Shared {
 		c.NonTrivial(jsonKey(cs.Parts), map[string]any{"parts": cs.Parts, "target": cs.Target, "as_documents": cs.AsDocs, "tag": cs.Tag})
 	}
+	if rp.Err != nil && cs.Tag == "corner:ulimit-pair" {
+		return failf("c04:ulimit-pair-replaced-not-merged", "a later file refining one key of a ulimit pair replaces the pair instead of merging into it: %v\n%s", rp.Err, desc())
+	}
 	if rp.Err != nil {
 		return failf("c04:parts-rejected:"+errClass(rp.Err), "the parts fail to load (%v) although the target loads (tag %q, documents=%v)\n%s", rp.Err, cs.Tag, cs.AsDocs, desc())
 	}
@@ -440,7 +443,18 @@ func errClass(err error) string {
 	return strings.Join(keep, "-")
 }
 
+// c04KnownCorners: fixed cases kept apart from the generated ones because compose-go is known to differ there.
+func c04KnownCorners() []c04Case {
+	base := "services:\n  web:\n    image: x\n    ulimits:\n      nofile:\n        soft: 10\n        hard: 20\n"
+	over := "services:\n  web:\n    ulimits:\n      nofile:\n        soft: 15\n"
+	target := "services:\n  web:\n    image: x\n    ulimits:\n      nofile:\n        soft: 15\n        hard: 20\n"
+	return []c04Case{{Target: target, Parts: []string{base, over}, Rules: []string{"ulimit-pair-refined"}, Shared: true, Tag: "corner:ulimit-pair"},
+		{Target: target, Parts: []string{base, over}, AsDocs: true, Rules: []string{"ulimit-pair-refined"}, Shared: true, Tag: "corner:ulimit-pair"}}
+}
+
 func TestC04(t *testing.T) {
 	c := NewCtx(t, "C04")
+	corners := c04KnownCorners()
+	RunEnum(c, t, "known-corners", len(corners), func(i int) c04Case { return corners[i] }, c04Check, true)
 	RunRapid(c, t, Sub[c04Case]{Kind: "split-merge", Quick: 2500, Thorough: 80_000, Gen: genC04, Check: c04Check})
 }
